@@ -2378,7 +2378,14 @@ func (ctx Ctx) callExprInterface(cvs []coq.Decl, r *ast.CallExpr) []coq.Decl {
 		for _, arg := range r.Args {
 			structName := ctx.typeOf(arg).String()
 			structName = unqualifyName(structName)
-			if _, ok := ctx.typeOf(arg).Underlying().(*types.Struct); ok {
+			argTy := ctx.typeOf(arg)
+			_, isSel := r.Fun.(*ast.SelectorExpr)
+			if pt, ok := argTy.(*types.Pointer); ok && !isSel {
+				// the call site names the conversion after the struct as
+				// well (and leaves calls through a selector alone)
+				argTy = pt.Elem()
+			}
+			if _, ok := argTy.Underlying().(*types.Struct); ok {
 				cv := coq.StructToInterface{Struct: structName, Interface: interfaceName, Methods: methods}
 				if len(cv.Coq(true)) > 1 && len(cv.MethodList()) > 0 {
 					cvs = append(cvs, cv)
@@ -2424,9 +2431,14 @@ func (ctx Ctx) maybeDecls(d ast.Decl) []coq.Decl {
 			ctx.unsupported(d, "function declaration with no body")
 		}
 		if !ctx.SkipInterfaces {
-			for _, stmt := range d.Body.List {
-				cvs = ctx.stmtInterface(cvs, stmt)
-			}
+			// every call in the body, wherever it sits, may pass a struct
+			// where an interface is expected
+			ast.Inspect(d.Body, func(n ast.Node) bool {
+				if call, ok := n.(*ast.CallExpr); ok {
+					cvs = ctx.callExprInterface(cvs, call)
+				}
+				return true
+			})
 		}
 		fd := ctx.funcDecl(d)
 		var results []coq.Decl
